@@ -173,6 +173,29 @@ def opCheck (spec dt dims : String) : String :=
     | .ok () => "ok"
     | .error r => showReport r
 
+/-! ## use of an accepted annotation in a call (C06: nothing parse-related may surface later) -/
+
+def postNames (p : List PItem) : List Name :=
+  p.filterMap fun i => match i with | .str x => some x | _ => none
+
+def kindOfReport : Report → String
+  | .ndims .. => "ndims" | .dtype .. => "dtype" | .shape .. => "shape" | .invalidRef .. => "invalidref"
+  | .duplicate .. => "duplicate" | .unsupported => "unsupported" | .scopeProvider => "scopeprovider"
+
+def opUse (shape : String) : String :=
+  match parseShape (optShape shape) 0 false with
+  | .error e => showShapeErr e
+  | .ok a =>
+    let names := (a.dims.map (fun d => postNames d.post)).flatten.eraseDups
+    let σ : Scope := names.map (fun n => (n, (2 : Int)))
+    let rank := a.dims.length - (if a.multiIdx.isSome then 1 else 0)
+    let t : Tensor := { dt := parseDT "0:float32", shape := List.replicate rank 2 }
+    match runEntries genAcc { σ := σ } [{ argIndex := 0, name := ['x'], tensor := t, ann := a }] with
+    | .ok _ => "accept"
+    | .reject r => "reject " ++ kindOfReport r
+    | .pyExc e => "pyexc " ++ e.show
+    | .unmodelled => "unmodelled"
+
 /-! ## entry points -/
 
 /-- `N` | `X` | `T,dt,dims` | `U:v;v;…` -/
@@ -294,6 +317,66 @@ def opCall (kindStyle prov scope : String) (items : List String) : String :=
         | .ok _ => if inv then "pyd-validation" else "ok"
         | r => showOutcomeC r
     else "bad-op"
+
+/-! ## symbolic shapes -/
+
+/-- prefix terms: `add(a,2)`, `isqrt(x)`, `grp(x)`, atoms = identifiers / integers -/
+partial def parseSym (toks : List String) : Option (Sym × List String) :=
+  match toks with
+  | [] => none
+  | t :: "(" :: rest =>
+    let bin (mk : Sym → Sym → Sym) :=
+      match parseSym rest with
+      | some (a, "," :: rest1) =>
+        match parseSym rest1 with
+        | some (b, ")" :: rest2) => some (mk a b, rest2)
+        | _ => none
+      | _ => none
+    let un (mk : Sym → Sym) :=
+      match parseSym rest with
+      | some (a, ")" :: rest1) => some (mk a, rest1)
+      | _ => none
+    match t with
+    | "add" => bin (.bin .add) | "sub" => bin (.bin .sub) | "mul" => bin (.bin .mul)
+    | "div" => bin (.bin .div) | "exp" => bin (.bin .exp)
+    | "min" => bin (.fn2 .min) | "max" => bin (.fn2 .max)
+    | "isqrt" => un .isqrt | "grp" => un .grp
+    | "const" => bin (fun _ _ => .bad)
+    | "anon" => (match rest with | ")" :: r => some (.bad, r) | _ => un (fun _ => .bad))
+    | _ => none
+  | t :: rest =>
+    match t.toInt? with
+    | some n => some (.lit n, rest)
+    | none => some (.var t.toList, rest)
+
+def symTokens (s : String) : List String :=
+  let rec go (cs : List Char) (cur : String) (acc : List String) : List String :=
+    match cs with
+    | [] => (if cur.isEmpty then acc else acc ++ [cur])
+    | c :: rest =>
+      if c == '(' || c == ')' || c == ',' then
+        go rest "" ((if cur.isEmpty then acc else acc ++ [cur]) ++ [c.toString])
+      else go rest (cur.push c) acc
+  go s.toList "" []
+
+def opSym (tree scope : String) : String :=
+  match parseSym (symTokens tree) with
+  | some (t, []) =>
+    let σ := parseScope scope
+    let spec := match t.pyEval σ.get? with
+      | some v => "py=" ++ toString v
+      | none => "py=undef"
+    match t.print with
+    | .error .zeroDivision => "printerr ZeroDivisionError\t" ++ spec
+    | .error .valueError => "printerr ValueError\t" ++ spec
+    | .error .typeError => "printerr TypeError\t" ++ spec
+    | .error .unmodelled => "unmodelled\t" ++ spec
+    | .ok s =>
+      let v := match parseDim s with
+        | .error e => showParseErr e
+        | .ok d => showEval (d.evaluate σ)
+      "str=" ++ String.ofList s ++ " " ++ v ++ "\t" ++ spec
+  | _ => "bad-op"
 
 /-! ## pydantic models -/
 
@@ -505,11 +588,13 @@ def handle (line : String) : String :=
   | ["PARSE", s] => opParse s ++ "\t" ++ specDim s.toList
   | ["EVAL", s, scope] => opEval s scope ++ "\t" ++ specEval s.toList (parseScope scope)
   | ["SHAPE", s] => opShape s ++ "\t" ++ specShape s
+  | ["USE", s] => opUse s ++ "\t" ++ specShape s
   | ["CHECK", spec, dt, dims] => opCheck spec dt dims
   | "CTX" :: scope :: cmds => opCtx scope cmds
   | "CALL" :: kind :: prov :: scope :: items => opCall kind prov scope items
   | "HIST" :: steps => opHist steps
   | "PYD" :: config :: steps => opPyd config steps
+  | ["SYM", tree, scope] => opSym tree scope
   | _ => "bad-op"
 
 partial def mainLoop (h : IO.FS.Stream) (out : IO.FS.Stream) : IO Unit := do
